@@ -8,6 +8,8 @@
   `n = sel.length` groups, `k` folds with `1 ≤ k ≤ n` — the calls the code accepts
   (`sets_ok_iff` states exactly which calls are accepted).
 -/
+import Mathlib.Algebra.Order.Field.Basic
+import Mathlib.Tactic.Linarith
 import Rsa.Lemmas.C05
 
 set_option linter.unusedSectionVars false
@@ -607,5 +609,148 @@ example :
   refine ⟨by decide, by decide, by decide, by decide, ?_, ?_⟩ <;> simp [List.Disjoint]
 -- bootstrap expansion
 example : concatSampling [3, 1, 3, 5, 0, 1] [1, 5] = [1, 1, 5] ∧ [1, 5].Nodup := by decide
+
+
+/-! ### round 2: additions (nothing above is changed) -/
+
+/-- which value-level folds `sets_k_fold` produces: exactly one per (RDM fold `g`, pattern
+    fold `h`), built from the `g`-th RDM split and the `h`-th split of the `g`-th pattern
+    shuffle. -/
+theorem kfold_both_mem (rsel : List Nat) (kr : Nat) (psels : List (List Nat)) (kp : Nat)
+    (vf : VFold) :
+    vf ∈ kFoldV rsel kr psels kp ↔ ∃ g h ps, g < kr ∧ h < kp ∧ psels[g]? = some ps ∧
+      vf = { rTrain := some (splitFold rsel kr (rsel.length / kr) (rsel.length % kr) g).1,
+             rTest := some (splitFold rsel kr (rsel.length / kr) (rsel.length % kr) g).2,
+             pTrain := some (splitFold ps kp (ps.length / kp) (ps.length % kp) h).1,
+             pTest := some (splitFold ps kp (ps.length / kp) (ps.length % kp) h).2,
+             hasCeil := true } := by
+  rw [kfold_both_spec]
+  simp only [List.mem_flatMap, List.mem_map, List.mem_range, Prod.exists]
+  constructor
+  · rintro ⟨g, ps, hz, h, hh, rfl⟩
+    rw [mem_zip_range] at hz
+    exact ⟨g, h, ps, hz.1, hh, hz.2, rfl⟩
+  · rintro ⟨g, h, ps, hg, hh, hps, rfl⟩
+    exact ⟨g, ps, mem_zip_range.2 ⟨hg, hps⟩, h, hh, rfl⟩
+
+/-- the two-axis k-fold scheme is exhaustive at item level: for every shuffle outcome on
+    both axes (a fresh one per RDM fold on the pattern axis), every (RDM, condition) cell of
+    the data lies in the test part (test RDMs × test conditions) of exactly one fold. -/
+theorem kfold_both_exhaustive_once (o : Obj) (rsel : List Nat) (kr : Nat)
+    (psels : List (List Nat)) (kp : Nat)
+    (hr : rsel.Perm (uniq (descList o.nR o.rdesc)))
+    (hlen : psels.length = kr)
+    (hp : ∀ ps ∈ psels, ps.Perm (uniq (descList o.nC o.pdesc)) ∧ kp ≤ ps.length)
+    (hkr : 1 ≤ kr) (hkrn : kr ≤ rsel.length) (hkp : 1 ≤ kp) :
+    ∀ j i, j < o.nR → i < o.nC → ∃! gh : Nat × Nat, gh.1 < kr ∧ gh.2 < kp ∧ ∃ ps,
+      psels[gh.1]? = some ps ∧
+      j ∈ (realize o
+        { rTrain := some (splitFold rsel kr (rsel.length / kr) (rsel.length % kr) gh.1).1,
+          rTest := some (splitFold rsel kr (rsel.length / kr) (rsel.length % kr) gh.1).2,
+          pTrain := some (splitFold ps kp (ps.length / kp) (ps.length % kp) gh.2).1,
+          pTest := some (splitFold ps kp (ps.length / kp) (ps.length % kp) gh.2).2,
+          hasCeil := true }).test.rows ∧
+      i ∈ (realize o
+        { rTrain := some (splitFold rsel kr (rsel.length / kr) (rsel.length % kr) gh.1).1,
+          rTest := some (splitFold rsel kr (rsel.length / kr) (rsel.length % kr) gh.1).2,
+          pTrain := some (splitFold ps kp (ps.length / kp) (ps.length % kp) gh.2).1,
+          pTest := some (splitFold ps kp (ps.length / kp) (ps.length % kp) gh.2).2,
+          hasCeil := true }).test.conds := by
+  intro j i hj hi
+  have hnr : rsel.Nodup := hr.nodup_iff.2 (uniq_nodup _)
+  have hvr : o.rdesc j ∈ rsel := by
+    rw [hr.mem_iff, mem_uniq, mem_descList]; exact ⟨j, hj, rfl⟩
+  obtain ⟨g, ⟨hg, hgm⟩, hgu⟩ := (split_vals_partition rsel kr hnr hkr hkrn).2.2 _ hvr
+  have hgl : g < psels.length := by omega
+  have hps : psels[g]? = some psels[g] := List.getElem?_eq_getElem hgl
+  have hpsm : psels[g] ∈ psels := List.getElem_mem hgl
+  obtain ⟨hpp, hpk⟩ := hp _ hpsm
+  have hnp : (psels[g]).Nodup := hpp.nodup_iff.2 (uniq_nodup _)
+  have hvp : o.pdesc i ∈ psels[g] := by
+    rw [hpp.mem_iff, mem_uniq, mem_descList]; exact ⟨i, hi, rfl⟩
+  obtain ⟨h, ⟨hh, hhm⟩, hhu⟩ := (split_vals_partition psels[g] kp hnp hkp hpk).2.2 _ hvp
+  refine ⟨(g, h), ⟨hg, hh, psels[g], hps, ?_, ?_⟩, ?_⟩
+  · simp only [realize, mkPart]
+    rw [mem_selRows]
+    exact ⟨hj, fun v hv => by simp only [Option.some.injEq] at hv; subst hv; exact hgm⟩
+  · simp only [realize, mkPart]
+    rw [mem_selConds]
+    exact ⟨hi, fun v hv => by simp only [Option.some.injEq] at hv; subst hv; exact hhm⟩
+  · rintro ⟨g', h'⟩ ⟨hg', hh', ps, hps', hjm, him⟩
+    simp only [realize, mkPart] at hjm him
+    rw [mem_selRows] at hjm
+    rw [mem_selConds] at him
+    have e1 : g' = g := hgu g' ⟨hg', hjm.2 _ rfl⟩
+    subst e1
+    rw [hps] at hps'
+    simp only [Option.some.injEq] at hps'
+    subst hps'
+    have e2 : h' = h := hhu h' ⟨hh', him.2 _ rfl⟩
+    subst e2
+    rfl
+
+/-- bootstrap path: when the conditions of the sample carry, as descriptor values, a
+    rearrangement of the drawn pattern ids `boot` (what `subsample_pattern` produces), the
+    `pattern_idx` handed to the fitter (`_concat_sampling boot ids`) has exactly the
+    multiplicities of the conditions of the part selected by the fold ids `ids`:
+    prediction rows and data rows correspond one to one. -/
+theorem concat_sampling_matches_object (o : Obj) (boot ids : List Nat)
+    (hb : (descList o.nC o.pdesc).Perm boot) (hn : ids.Nodup) (sub : Bool)
+    (rv : Option (List Nat)) :
+    ((mkPart o sub rv (some ids)).conds.map o.pdesc).Perm (concatSampling boot ids) := by
+  rw [List.perm_iff_count]
+  intro v
+  rw [count_concatSampling boot hn v]
+  have h1 : (mkPart o sub rv (some ids)).conds.map o.pdesc
+      = (descList o.nC o.pdesc).filter (fun x => ids.contains x) := by
+    simp only [mkPart, selConds, subsetSel, descList, List.filter_map, Function.comp_def]
+  rw [h1, count_filter_contains, hb.count_eq]
+
+-- non-vacuity: a bootstrap sample of 5 conditions drawn as [3, 1, 3, 0, 1]
+private def exBootObj : Obj :=
+  { nR := 1, nC := 5, rdesc := fun _ => 0, pdesc := fun i => [0, 1, 1, 3, 3].getD i 0 }
+example : (descList exBootObj.nC exBootObj.pdesc).Perm [3, 1, 3, 0, 1] ∧ [3, 0].Nodup ∧
+    (mkPart exBootObj false none (some [3, 0])).conds = [0, 3, 4] ∧
+    concatSampling [3, 1, 3, 0, 1] [3, 0] = [3, 3, 0] := by decide
+-- non-vacuity of `kfold_both_exhaustive_once`: 3 RDM groups in 2 folds, two pattern shuffles
+example : [2, 0, 1].Perm (uniq (descList 4 (fun j => [0, 1, 1, 2].getD j 0))) ∧
+    [[1, 0, 2], [2, 1, 0]].length = 2 ∧
+    (∀ ps ∈ [[1, 0, 2], [2, 1, 0]], ps.Perm (uniq (descList 3 (fun i => i))) ∧ 2 ≤ ps.length) := by
+  decide
+
+
+/-- the default fold counts are accepted whenever there are at least two groups, and the
+    default pattern split leaves at least three condition groups in every test fold as soon
+    as there are six (so `crossval` does not skip such folds: it skips parts with ≤ 2
+    conditions). -/
+theorem default_k_accepted (n : Nat) (h : 2 ≤ n) :
+    (Rsa.Gen.C05.defaultKRdm n).toNat ≤ n ∧ (Rsa.Gen.C05.defaultKPattern n).toNat ≤ n ∧
+    1 ≤ (Rsa.Gen.C05.defaultKRdm n).toNat ∧ 1 ≤ (Rsa.Gen.C05.defaultKPattern n).toNat ∧
+    (6 ≤ n → 3 ≤ n / (Rsa.Gen.C05.defaultKPattern n).toNat) := by
+  simp only [Rsa.Gen.C05.defaultKPattern, Rsa.Gen.C05.defaultKRdm]
+  refine ⟨?_, ?_, ?_, ?_, ?_⟩
+  · (repeat' split) <;> simp <;> omega
+  · (repeat' split) <;> simp <;> omega
+  · (repeat' split) <;> simp
+  · (repeat' split) <;> simp
+  · intro h6
+    (repeat' split) <;> simp <;> omega
+
+/-- `bootstrap_crossval` calls the default-k functions on a real number (the expected
+    number of distinct groups of a bootstrap sample); on every ordered field the generated
+    text gives a value in [2, 5], is monotone, and agrees with the integer version on
+    natural arguments. -/
+theorem default_k_real {K : Type} [Field K] [LinearOrder K] [IsStrictOrderedRing K]
+    (x y : K) (hxy : x ≤ y) (n : Nat) :
+    2 ≤ Rsa.Gen.C05.defaultKPatternReal x ∧ Rsa.Gen.C05.defaultKPatternReal x ≤ 5 ∧
+    2 ≤ Rsa.Gen.C05.defaultKRdmReal x ∧ Rsa.Gen.C05.defaultKRdmReal x ≤ 5 ∧
+    Rsa.Gen.C05.defaultKPatternReal x ≤ Rsa.Gen.C05.defaultKPatternReal y ∧
+    Rsa.Gen.C05.defaultKRdmReal x ≤ Rsa.Gen.C05.defaultKRdmReal y ∧
+    Rsa.Gen.C05.defaultKPatternReal (n : K) = Rsa.Gen.C05.defaultKPattern n ∧
+    Rsa.Gen.C05.defaultKRdmReal (n : K) = Rsa.Gen.C05.defaultKRdm n := by
+  simp only [Rsa.Gen.C05.defaultKPatternReal, Rsa.Gen.C05.defaultKRdmReal,
+    Rsa.Gen.C05.defaultKPattern, Rsa.Gen.C05.defaultKRdm, Nat.cast_lt]
+  refine ⟨?_, ?_, ?_, ?_, ?_, ?_, trivial, trivial⟩ <;> (repeat' split) <;>
+    first | omega | (exfalso; linarith)
 
 end Rsa.Props.C05
